@@ -34,7 +34,7 @@ def run(P, R, tier):
     chains(P, R, f)
     from rules import common as _common
     _common.forward(P, R, 'C02', ['C02.*'], 'C05.g', 'a pair is emitted iff the point intersects the shape (C02)', floor=10)
-    _common.forward(P, R, 'C03', ['C03.a', 'C03.b', 'C03.c', 'C03.d', 'C03.e', 'C03.f', 'C03.g', 'C03.j', 'C03.k'], 'C05.g', 'candidate rows come from the R-tree, each exactly once (C03)', floor=10)
+    _common.forward(P, R, 'C03', ['C03.a', 'C03.b', 'C03.c', 'C03.d', 'C03.e', 'C03.f', 'C03.g', 'C03.h', 'C03.i', 'C03.j', 'C03.k'], 'C05.g', 'candidate rows come from the R-tree, each exactly once (C03)', floor=10)
     _common.forward(P, R, 'C16', ['C16.f'], 'C05.g', 'the merges gather the geometry columns row by row through GeometryArray.take', floor=1)
     # C05.d / C05.e
     from rules import C06, C20
